@@ -58,6 +58,7 @@ inductive Ev where
   | tick (now : Nat)
   | quiescent
   | final
+  | spurious          -- the engine reported readiness of a descriptor to a waiting thread although poll() says it is not ready
   deriving Repr
 
 def ETIMEDOUT : Nat := 110
@@ -148,6 +149,7 @@ def pre (s : St) (ev : Ev) : Option String :=
       some "a reader or writer is still blocked although bytes, end of stream or buffer space are available (lost readiness event)"
     else none
   | .final => if s.calls.isEmpty then none else some "a stream call never returned"
+  | .spurious => some "a thread waiting for one descriptor was woken although that descriptor is not ready (event of another descriptor or direction)"
 
 def eff (s : St) (ev : Ev) : St :=
   match ev with
@@ -175,6 +177,7 @@ def eff (s : St) (ev : Ev) : St :=
   | .tick n => { s with now := n }
   | .quiescent => s
   | .final => s
+  | .spurious => s
 
 def step (s : St) (e : Ev) : Except String St :=
   match pre s e with
